@@ -592,7 +592,9 @@ func cfBody(cfg cfCfg) func() {
 				if replyWire >= 0 {
 					when = "reply-written-later"
 				}
-				vsched.Failf("first-message-not-connect-reply:"+when, "the first message the server wrote is a %s (%s), not the reply to the connect command (%s): %s", pushKind(first), strings.Replace(vFrame{Reply: first}.describe(), cl.c.ID(), "A", -1), when, all)
+				// the signature names what overtook the reply, so that a different kind of message
+				// getting ahead of it is a different finding
+				vsched.Failf("first-message-not-connect-reply:"+when+":"+pushKind(first), "the first message the server wrote is a %s (%s), not the reply to the connect command (%s): %s", pushKind(first), strings.Replace(vFrame{Reply: first}.describe(), cl.c.ID(), "A", -1), when, all)
 			}
 		}
 
